@@ -521,6 +521,10 @@ impl InferShapes for Unsqueeze {
                 })
                 .collect::<Result<_, _>>()?;
             resolved_axes.sort();
+            if resolved_axes.windows(2).any(|pair| pair[0] == pair[1]) {
+                return Err(InferShapesError::InvalidValue);
+            }
+
             for axis in resolved_axes {
                 dims.insert(axis, SymExpr::Value(1));
             }
